@@ -69,9 +69,9 @@ ObsF(o, qq) ==
 ---------------------------------------------------------------------------
 Ideal == IF kind = "bounded" THEN IdealB(q, cap, Ev) ELSE IdealF(q, first, Ev)
 KnownOp == IF kind = "bounded"
-             THEN Ev.ev \in {"push", "pop", "views", "get", "index", "get_mut", "index_mut",
+             THEN Ev.ev \in {"push", "pop", "views", "clone", "get", "index", "get_mut", "index_mut",
                              "drain", "iter_mut", "slices_mut", "extend"}
-             ELSE Ev.ev \in {"push", "views", "get", "index", "get_mut", "index_mut",
+             ELSE Ev.ev \in {"push", "views", "clone", "get", "index", "get_mut", "index_mut",
                              "set_first", "iter_mut", "slices_mut", "extend"}
 
 AcceptReset ==
@@ -86,7 +86,7 @@ AcceptOp ==
   /\ IF kind = "bounded" THEN ObsB(Ev.o, Ideal.q, cap) ELSE ObsF(Ev.o, Ideal.q)
 
 \* C07: no operation of either buffer allocates, reallocates or frees (panicking calls exempt)
-HeapOK == Ev.r.k = "panic" \/ Ev.h = << 0, 0, 0 >>
+HeapOK == Ev.r.k = "panic" \/ Ev.ev = "clone" \/ Ev.h = << 0, 0, 0 >>    \* cloning owned storage allocates by nature
 
 Consume == l <= Len(Rec) /\ l' = l + 1
 
